@@ -223,9 +223,13 @@ CLAIMS = {
              "parsed document): after insertBefore/appendChild the parent's child ids are its former children without the new child, "
              "in order, with the new child in front of the reference child / at the end, and the new child reports that parent; after "
              "removeChild the parent keeps its other children in order and the removed subtree is a detached root without parent. "
-             "The effects of the attribute and data operations are the model's definitions (checked against the code by the tie), not "
-             "separately characterised. `normalize`, document fragments and foreign documents are not generated. Known finding "
-             "factory-panic.",
+             "normalize: the element afterwards reads exactly as before (same marks, same characters in the same places), is in "
+             "normal form (no empty Text node, no Text node after one it could have been appended to) and no node is lost or "
+             "duplicated; a successful data edit stores the validated outcome and changes no other node (Thm/C15 data_edit_effect). "
+             "The effects of the attribute operations are the model's definitions (checked against the code by the tie: set/remove/"
+             "get attribute, attribute nodes, and the same through NamedNodeMap), not separately characterised. Document fragments "
+             "(a stub in the code, no NodeMut) and foreign documents are not generated. Known findings factory-panic, "
+             "attr-local-part.",
         technique="Lean 4 proof (case analysis over all operations) + differential correspondence with full state dumps after every call",
         ref="DESIGN.md section 6 C13"),
     "C14": dict(
